@@ -1977,9 +1977,10 @@ impl Peers {
             let (_, peer) = item.pair();
             peer.state.get_prove_state().and_then(|prove_state| {
                 // TODO Store last headers in an ordered hashmap could increase performance.
-                prove_state
-                    .get_last_headers()
-                    .iter()
+                // The proved last header itself is the tip which the last n headers belong to.
+                Some(prove_state.get_last_header().header())
+                    .into_iter()
+                    .chain(prove_state.get_last_headers().iter())
                     .find(|header| hash == &header.hash())
                     .cloned()
             })
